@@ -341,28 +341,30 @@ class ConcCtx(BaseCtx):
         self.goals = set()
         self.checked = []
 
+    # an input declared after the point where a counterexample was found is
+    # not in the replayed inputs: any value will do for it
     def int(self, name, lo=None, hi=None):
-        return self.i[name]
+        return self.i.get(name, lo if isinstance(lo, int) else 0)
 
     def bool(self, name):
-        return self.i[name]
+        return self.i.get(name, False)
 
     def float(self, name, finite=True, lo=None, hi=None):
-        return self.i[name]
+        return self.i.get(name, 0.0 if lo is None else float(lo))
 
     def choice(self, name, options):
-        return options[self.i[name]]
+        return options[self.i.get(name, 0)]
 
     def stream(self, name, N, sym_cells=(), fixed=None, default=0,
                segs=None):
         return ConcStreamH(self.i[name], N)
 
     def str(self, name, n, domain=ALPHA):
-        return self.i[name]
+        return self.i.get(name, chr(min(domain)) * n)
 
     def strlen(self, name, lo, hi, domain=ALPHA):
-        self.choice(name + '_len', list(range(lo, hi + 1)))
-        return self.i[name]
+        n = self.choice(name + '_len', list(range(lo, hi + 1)))
+        return self.i.get(name, chr(min(domain)) * n)
 
     def assume(self, c):
         if not c:
@@ -524,10 +526,14 @@ def run_job(h, params, findings=(), forced=(), split_depth=None,
                 if not cctx.failures:
                     entry['why'] = 'all obligations hold concretely'
             except PathAbort:
-                entry['confirmed'] = False
+                entry['confirmed'] = bool(cctx.failures)
+                entry['failed_labels'] = cctx.failures
                 entry['why'] = 'concrete run rejected an assumption'
             except Exception as e:
-                entry['confirmed'] = False
+                # the obligation may already have failed before the scenario
+                # tripped over something later on
+                entry['confirmed'] = bool(cctx.failures)
+                entry['failed_labels'] = cctx.failures
                 entry['why'] = 'concrete run raised %s: %s' % (
                     type(e).__name__, e)
         res['violations'].append(entry)
@@ -543,5 +549,10 @@ def replay_inputs(h, params, inputs, findings=()):
     """concrete run of a scenario on the real module"""
     Mreal = _get(_REAL_CACHE, h, h.load_real)
     cctx = ConcCtx(inputs, params, findings)
-    got = h.scenario(cctx, Mreal)
+    try:
+        got = h.scenario(cctx, Mreal)
+    except (Exception, PathAbort) as e:
+        if not cctx.failures:
+            raise
+        got = 'scenario stopped after the failure: %s' % type(e).__name__
     return cctx.failures, got
